@@ -253,6 +253,10 @@ var InterfaceOps = []string{
 	`{ nodes { profile { psecret } ... on User { profile { psecret } } } }`,
 	`{ nodes { profile { bio ... on UserProfile { psecret rank } } ... on User { profile { psecret } } } }`,
 	`{ node { profile { psecret bio } } me { profile { psecret } } }`,
+	// 24.. deferred payloads (sentinel scan over all frames, fetch gate on the deferred fetches)
+	`{ me { email ... @defer { secret title } } }`,
+	`{ product { sku ... @defer { title secret } } me { id ... @defer { notes } } }`,
+	`{ nodes { id ... on User @defer { email notes } } }`,
 }
 
 func Fixtures() []Fixture {
@@ -268,7 +272,8 @@ func Fixtures() []Fixture {
 			{"User.profile", "User.links"},                                                                   // 7: object / list valued, rule on the conditioned coordinate only
 			{"Node.profile", "User.profile", "Product.profile", "Node.links", "User.links", "Product.links"}, // 8: on all, decided independently
 			{"UserProfile.psecret"}, // 9: nested rule on the covariant child type only
-			{"Profile.psecret", "UserProfile.psecret", "BasicProfile.psecret", "UserProfile.rank"}, // 10
+			{"Profile.psecret", "UserProfile.psecret", "BasicProfile.psecret", "UserProfile.rank"},       // 10
+			{"User.secret", "User.title", "User.email", "User.notes", "Product.title", "Product.secret"}, // 11: fields of deferred fragments
 		}},
 		{Name: "mut", Build: MutationFixture, Ops: MutationOps, Ps: [][]string{
 			{"Mutation.bump", "Mutation.wipe", "Mutation.purge"},
